@@ -321,6 +321,9 @@ var memLog = os.Getenv("ICESIM_MEMLOG") != ""
 // earlier faulted run leaked a process-wide resource).
 var lastBeat atomic.Int64
 
+// peakRSS is the largest resident size the watchdog has seen in this shard.
+var peakRSS atomic.Uint64
+
 const stallLimit = 420 * time.Second
 
 // residentBytes is the memory the process has actually touched (RSS). Mapped
@@ -354,6 +357,9 @@ func startMemoryWatchdog(limit uint64, prop string, seed uint64, shard int, outD
 		for {
 			time.Sleep(50 * time.Millisecond)
 			rss := residentBytes()
+			if rss > peakRSS.Load() {
+				peakRSS.Store(rss)
+			}
 			over := rss >= limit
 			stalled := time.Since(time.Unix(0, lastBeat.Load())) > stallLimit
 			if !over && !stalled {
@@ -410,12 +416,15 @@ func RunShard(prop, tier string, seed uint64, shard, shards int, plan []PlanItem
 	start := time.Now()
 	st := &ShardStats{Prop: prop, Tier: tier, Shard: shard, Seed: seed, PerScen: map[string]*ScenStats{}, Known: map[string]int{}, Hashes: map[string][]uint64{}}
 	env := &Env{Prop: prop, Tier: tier}
-	// far above anything the unchanged code needs (its builder can legitimately
+	// well above anything the unchanged code needs (its builder can legitimately
 	// touch a few GiB: see residentBytes); an allocation the OS refuses outright
-	// ends the process and is classified by the orchestrator (crashVerdict)
-	limit := uint64(24) << 30
+	// ends the process and is classified by the orchestrator (crashVerdict); a
+	// shard killed without a dump is re-executed alone (isolatedVerdict)
+	// (measured peaks of the unchanged code: <= 3.7 GiB per shard in the quick
+	// tier over several seeds; reported as peak_resident_mib_per_shard)
+	limit := uint64(10) << 30
 	if RaceBuild {
-		limit = 40 << 30
+		limit = 16 << 30
 	}
 	Heartbeat()
 	startMemoryWatchdog(limit, prop, seed, shard, outDir, st)
@@ -464,7 +473,8 @@ func RunShard(prop, tier string, seed uint64, shard, shards int, plan []PlanItem
 			if CurrentCaseFile != "" {
 				// if the process dies (a fatal runtime error, a panic on a goroutine
 				// the code under test started), the orchestrator finds the case here
-				if b, err := json.Marshal(&Replay{Property: prop, Check: prop, Scenario: sc.Name, Seed: seed, Shard: shard, Case: c, Trace: "0"}); err == nil {
+				if b, err := json.Marshal(&Replay{Property: prop, Check: prop, Scenario: sc.Name, Seed: seed, Shard: shard, Case: c, Trace: "0",
+					Verdict: &Fail{Prop: prop, Oracle: "process", Kind: "died", Site: sc.Name, Detail: "the shard process died while executing this case"}}); err == nil {
 					_ = os.WriteFile(CurrentCaseFile, b, 0o644)
 				}
 			}
@@ -586,6 +596,7 @@ func RunShard(prop, tier string, seed uint64, shard, shards int, plan []PlanItem
 		}
 	}
 	st.WallS = time.Since(start).Seconds()
+	st.Extra = map[string]interface{}{"peak_rss_mib": peakRSS.Load() >> 20}
 	return st, nil
 }
 
